@@ -47,6 +47,15 @@ def main():
         for b in bad:
             run.broken.append(("forbidden-token", b))
         audit = common.audit_props(prop)
+        if run.thorough and not os.environ.get("VERIF_NO_COQCHK"):
+            chk = common.coqchk_props(prop)
+            run.extra["coqchk"] = chk
+            allowed = common.AXIOM_WHITELIST.get(prop, set())
+            bad_chk = [a for a in chk.get("axioms", []) if a not in allowed]
+            if (not chk.get("ok") or bad_chk or chk.get("type_in_type")
+                    or chk.get("unsafe_fixpoints")
+                    or chk.get("assumed_positivity")):
+                run.broken.append(("coqchk(%s)" % prop, json.dumps(chk)[:600]))
         try:
             module.run(run)
         except common.ModelError as e:
